@@ -447,11 +447,12 @@ def fastcc_phase(ctx):
 
 
 def phases(tier):
+    # the engine runs the phases one after the other, so each may use all processes of the tier
     if tier == "quick":
-        return [Phase("blocked", blocked_phase, shards=5, params={"max_examples": 250, "budget_s": 50}),
-                Phase("fastcc", fastcc_phase, shards=3, params={"max_examples": 250, "budget_s": 50})]
-    return [Phase("blocked", blocked_phase, shards=10, params={"max_examples": 1500, "budget_s": 500}),
-            Phase("fastcc", fastcc_phase, shards=6, params={"max_examples": 1500, "budget_s": 500})]
+        return [Phase("blocked", blocked_phase, shards=8, params={"max_examples": 200, "budget_s": 30}),
+                Phase("fastcc", fastcc_phase, shards=8, params={"max_examples": 150, "budget_s": 28})]
+    return [Phase("blocked", blocked_phase, shards=16, params={"max_examples": 3000, "budget_s": 260}),
+            Phase("fastcc", fastcc_phase, shards=16, params={"max_examples": 2000, "budget_s": 260})]
 
 
 CHECKS = {"c19": check_case}
